@@ -45,5 +45,31 @@ int main(void) {
     binn_free(&v);
     binn_free(&obj);
   }
+  // behaviour of _jbl_copy_node_data: does the node that takes over a container set the `parent` field of the children it takes
+  // over?  (coq/JSON/PatchId.v: `reparent`; fixes/jpatch-parent-pointers.diff.)  Probed on `add` over an existing member and on
+  // `replace` of the root.
+  {
+    struct iwpool *pool = iwpool_create(1024);
+    struct jbl_node *doc = 0, *pn = 0;
+    int ok = 0;
+    if (  !jbn_from_json("{\"a\":{\"x\":1}}", &doc, pool)
+       && !jbn_from_json("[{\"op\":\"add\",\"path\":\"/a\",\"value\":{\"k\":[7]}},"
+                         "{\"op\":\"replace\",\"path\":\"\",\"value\":{\"r\":[1]}}]", &pn, pool)) {
+      struct jbl_node *op1 = pn->child, *op2 = op1->next;
+      struct jbl_node *one = iwpool_calloc(sizeof(*one), pool), *two = iwpool_calloc(sizeof(*two), pool);
+      memcpy(one, pn, sizeof(*one)); one->child = op1; op1->next = 0;        // the first operation alone
+      if (!jbn_patch_auto(doc, one, pool)) {
+        struct jbl_node *a = doc->child;
+        int first = a && a->child && a->child->parent == a;
+        memcpy(two, pn, sizeof(*two)); two->child = op2; op2->prev = 0;
+        if (!jbn_patch_auto(doc, two, pool)) {
+          int second = doc->child && doc->child->parent == doc;
+          ok = (first && second) ? 1 : (!first && !second) ? 0 : 2;
+        }
+      }
+    }
+    ZV("JP_REPARENT", ok);
+    iwpool_destroy(pool);
+  }
   return 0;
 }
